@@ -37,8 +37,9 @@ def opRespSend (args : List String) (impl : String) : Verdict :=
     | none => bad "respsend: hex"
     | some seed =>
     let imp := parseKvs impl " "
+    let norm (a : Nat) : Nat := if 50 < a ∧ a < 100 then a - 50 else a
     let n := entries.length
-    let nUnreach := (entries.filter fun e => e.1 ≥ 100).length
+    let nUnreach := (entries.filter fun e => e.1 ≥ 50).length
     let label := "respsend:" ++ v ++ ":" ++ kind ++ ":n=" ++ (if n ≤ 3 then toString n else "many") ++ ":unreachable=" ++
       (if nUnreach = 0 then "0" else if nUnreach = n then "all" else "some")
     if kvLookup imp "panic" ≠ "0" then l1 label "C08,C17: send_responses panicked" else
@@ -53,13 +54,35 @@ def opRespSend (args : List String) (impl : String) : Verdict :=
       per.findSome? fun (a, c) =>
         let got := recv.filter (·.1 = a)
         let gotBytes := (got.map (·.2)).foldl (· + ·) 0
-        let queued := (entries.filter (·.1 = a)).length
+        let queued := (entries.filter (fun e => norm e.1 = a)).length
         if c.getD 0 0 + c.getD 1 0 ≠ got.length then some ("C17: address " ++ toString a ++ ": " ++ toString (c.getD 0 0 + c.getD 1 0) ++ " responses recorded, " ++ toString got.length ++ " datagrams actually received")
         else if c.getD 2 0 ≠ gotBytes then some ("C17: address " ++ toString a ++ ": " ++ toString (c.getD 2 0) ++ " bytes recorded, " ++ toString gotBytes ++ " actually received")
         else if c.getD 3 0 ≠ queued - got.length then some ("C17: address " ++ toString a ++ ": " ++ toString (c.getD 3 0) ++ " failed sends recorded, " ++ toString (queued - got.length) ++ " replies actually missing")
         else none
+    -- L1 (C02, C09): every datagram that arrived at an address is a complete valid response for a request queued
+    -- for that address, each request answered at most once (signatures verified once per distinct triple)
+    let p : Spec.RT.Proto := match ver with | .ietf => .draft13 | .google => .classic
+    let ltpk := Ed25519.publicKey seed
+    let dgs : List (Nat × Bytes) := (if kvLookup imp "dg" = "-" ∨ kvLookup imp "dg" = "" then [] else (kvLookup imp "dg").splitOn ",").filterMap fun x =>
+      match x.splitOn ":" with
+      | [a, h] => (unhex h).map fun b => (a.toNat!, b)
+      | _ => none
+    let triples := (dgs.flatMap fun d => triplesOf p ltpk d.2).eraseDups
+    let table := triples.map fun tr => (tr, realScheme.verify tr.1 tr.2.1 tr.2.2)
+    let S := memoScheme table
+    let contentFail : Option String :=
+      (dgs.foldl (fun (acc : Option String × List (Nat × Bytes × Bytes)) d =>
+        match acc.1 with
+        | some e => (some e, acc.2)
+        | none =>
+          match acc.2.find? (fun e => norm e.1 = d.1 ∧ (Spec.RT.verifyResponse S Sha512.hash p ltpk e.2.2 e.2.1 d.2).isOk) with
+          | some e => (none, acc.2.erase e)
+          | none => (some ("C02,C09,C17: a datagram received at address " ++ toString d.1 ++ " (" ++ toString d.2.length ++
+              " bytes) is not a valid response for any request still outstanding for that address"), acc.2))
+        (none, entries)).1
     let l1v : Option String :=
-      if t 0 ≠ recvN then some ("C17: " ++ toString (t 0) ++ " responses recorded but " ++ toString recvN ++ " datagrams actually sent (received by the harness)")
+      if contentFail.isSome then contentFail
+      else if t 0 ≠ recvN then some ("C17: " ++ toString (t 0) ++ " responses recorded but " ++ toString recvN ++ " datagrams actually sent (received by the harness)")
       else if t 3 ≠ recvBytes then some ("C17: " ++ toString (t 3) ++ " bytes recorded but " ++ toString recvBytes ++ " bytes actually sent")
       else if t 4 ≠ n - recvN then some ("C17: " ++ toString (t 4) ++ " failed sends recorded but " ++ toString (n - recvN) ++ " of " ++ toString n ++ " replies were not sent")
       else if (if ver = .ietf then t 1 ≠ recvN ∨ t 2 ≠ 0 else t 2 ≠ recvN ∨ t 1 ≠ 0) then some "C17: per-protocol response counters differ from the datagrams sent"
@@ -75,7 +98,7 @@ def opRespSend (args : List String) (impl : String) : Verdict :=
         let r0 := match ver with | .ietf => s0.ietf | .google => s0.classic
         let added : Res Responder := entries.foldl (fun acc e => acc.bind fun r =>
           Responder.add realEnv r (match ver with | .ietf => e.2.2 | .google => e.2.1) e.2.1 e.1) (.ok r0)
-        match added.bind fun r => Responder.sendResponsesF (fun a _ => decide (a < 100)) realEnv r false (1700000000, 0) [] with
+        match added.bind fun r => Responder.sendResponsesF (fun a _ => decide (a < 50)) realEnv r false (1700000000, 0) [] with
         | .ok (_, os, es) =>
           let sentM := ((os.filterMap id).map fun s => (s.dst, s.bytes.length))
           let sortPairs (l : List (Nat × Nat)) := l.foldl (fun acc x =>
@@ -88,9 +111,9 @@ def opRespSend (args : List String) (impl : String) : Verdict :=
           if sortPairs sentM ≠ sortPairs recv then l2 label ("model sends " ++ toString (sortPairs sentM) ++ ", implementation " ++ toString (sortPairs recv))
           else if modelTot ≠ tot then l2 label ("model totals " ++ toString modelTot ++ ", implementation " ++ toString tot)
           else if kind = "pc" then
-            let addrs := (es.map (·.addr)).eraseDups
+            let addrs := (es.map (fun e => norm e.addr)).eraseDups
             let modelPer := addrs.foldl (fun acc a =>
-              let ca := (es.filter (·.addr = a)).foldl (fun c e => Stats.Counters.bump c e) ({} : Stats.Counters)
+              let ca := (es.filter (fun e => norm e.addr = a)).foldl (fun c e => Stats.Counters.bump c e) ({} : Stats.Counters)
               insertSorted (a, [ca.rfcResponses, ca.classicResponses, ca.bytesSent, ca.failedSends]) acc) []
             let implPer := per.foldl (fun acc x => insertSorted x acc) []
             if modelPer ≠ implPer then l2 label ("model per-address " ++ toString modelPer ++ ", implementation " ++ toString implPer)
